@@ -1291,6 +1291,8 @@ impl Server {
                     }
                     reply
                 }
+                // CLIENT ID / GETNAME / SETNAME ... speak about this connection too
+                "CLIENT" => self.process_normal_command(cmd_parts, db_index, conn_id),
                 // So do the other connection-level commands, which process_frame handles itself
                 // outside a transaction
                 "PUBLISH" => self.handle_publish(cmd_parts),
